@@ -16,12 +16,14 @@ import OdmlModel.Proofs.PathMem
 import OdmlModel.Proofs.PathRelated
 import OdmlModel.Model.PathName
 import OdmlModel.Proofs.PathName
+import OdmlModel.Model.PathMove
+import OdmlModel.Proofs.PathMove
 
 set_option linter.unusedSimpArgs false
 set_option linter.unusedVariables false
 
 namespace C14
-open PathTree Path Py Py.Posix PathName
+open PathTree Path Py Py.Posix PathName PathMove
 
 /-! ## 1. Absolute paths -/
 
@@ -720,6 +722,139 @@ example : setName [['a'], ['b']] 0 ['i'] (some ['c']) = .ok [['c'], ['b']] ∧
     setName [['a'], ['b']] 0 ['i'] none = .ok [['i'], ['b']] ∧
     setName [['a'], ['b']] 0 ['i'] (some ['b']) = .keyError ∧
     setName [['i'], ['b']] 0 ['i'] (some []) = .ok [['i'], ['b']] := by decide
+
+/-! ## 5d. A refused move leaves every path valid; an accepted one keeps the tree well formed
+(added after seeded round 6; model `Model/PathMove.lean`, tied to /repo by the stream `setparent`) -/
+
+/-- A refused move is no edit: whenever `x.parent = new_parent` raises - the name is taken in the new
+    child list (by a Section of whatever type, content or id), or the new parent is `x` or lies below
+    it - both child lists and the parent reference of `x` are what they were. -/
+theorem set_parent_refused_keeps (old : List Kid) (i : Nat) (new : List Kid) (below : Bool)
+    (h : (setParent old i new below).raised = true) :
+    setParent old i new below = ⟨true, old, new, .old⟩ := by
+  revert h
+  unfold setParent setParentWith
+  cases hx : old[i]? with
+  | none => simp
+  | some x =>
+    simp only
+    by_cases h1 : nameTaken new x = true
+    · simp [h1]
+    · by_cases hb : below = true
+      · simp [h1, hb]
+      · simp [h1, hb]
+
+/-- An accepted move takes the object out of the old child list and puts it at the end of the new one,
+    where its name was free. -/
+theorem set_parent_accepted_moves (old : List Kid) (i : Nat) (new : List Kid) (below : Bool) (x : Kid)
+    (hx : old[i]? = some x) (h : (setParent old i new below).raised = false) :
+    setParent old i new below = ⟨false, old.eraseIdx i, new ++ [x], .new⟩ ∧ nameTaken new x = false ∧
+      below = false := by
+  revert h
+  unfold setParent setParentWith
+  rw [hx]
+  simp only
+  by_cases h1 : nameTaken new x = true
+  · simp [h1]
+  · by_cases hb : below = true
+    · simp [h1, hb]
+    · simp [h1, hb]
+
+/-- Refused or accepted, child lists and parent reference agree afterwards: the object is an entry of
+    exactly the child list of the holder it names as its parent. -/
+theorem set_parent_consistent (old : List Kid) (i : Nat) (new : List Kid) (below : Bool) (x : Kid)
+    (hx : old[i]? = some x) : (setParent old i new below).consistent old i new x := by
+  unfold setParent setParentWith Moved.consistent
+  rw [hx]
+  simp only
+  by_cases h1 : nameTaken new x = true
+  · simp [h1]
+  · by_cases hb : below = true
+    · simp [h1, hb]
+    · simp [h1, hb]
+
+/-- The move keeps the sibling names of both child lists pairwise distinct. -/
+theorem set_parent_keeps_distinct (old : List Kid) (i : Nat) (new : List Kid) (below : Bool)
+    (ho : distinct (old.map (·.name)) = true) (hn : distinct (new.map (·.name)) = true) :
+    distinct ((setParent old i new below).old.map (·.name)) = true ∧
+    distinct ((setParent old i new below).new.map (·.name)) = true := by
+  cases hx : old[i]? with
+  | none => simp [setParent, setParentWith, hx, ho, hn]
+  | some x =>
+    cases hr : (setParent old i new below).raised with
+    | true => rw [set_parent_refused_keeps old i new below hr]; exact ⟨ho, hn⟩
+    | false =>
+      obtain ⟨he, ht, _⟩ := set_parent_accepted_moves old i new below x hx hr
+      rw [he]
+      refine ⟨?_, ?_⟩
+      · rw [map_name_eraseIdx]
+        exact distinct_eraseIdx _ i ho
+      · simp only [List.map_append, List.map_cons, List.map_nil]
+        exact distinct_append_one _ _ hn (nameTaken_false new x ht)
+
+/-- The first clause of the property after `x.parent = doc` for a Section `x` (entry `i` of the child
+    list `old` of another holder - another Document, or a Section of another Document) and a
+    well-formed Document `d`: refused (`d` stays as it is) or accepted (`x` is the last top-level
+    Section of `d'`), every Section of the Document is found by its path, from the Document and from
+    every Section, and the child list of the Document is the one the setter leaves. -/
+theorem paths_resolve_after_set_parent (d : Doc) (old : List Sec) (i : Nat) (x : Sec) (below : Bool)
+    (hw : d.wf = true) (hx : old[i]? = some x) (hxw : x.wf = true) (hxn : plainName x.name = true)
+    (d' : Doc)
+    (hd' : d' = if (setParent (kids old) i (kids d.secs) below).raised then d else ⟨d.secs ++ [x]⟩) :
+    kids d'.secs = (setParent (kids old) i (kids d.secs) below).new ∧
+    ∀ (cur p : Pos) (s : Sec), secAt d'.secs p = some s →
+      ∃ path, getPath d' p = some path ∧ getSectionByPath d' cur path = .ok p := by
+  have hkx : (kids old)[i]? = some ⟨x.name, x.type⟩ := by simp [kids, hx]
+  cases hr : (setParent (kids old) i (kids d.secs) below).raised with
+  | true =>
+    rw [hr] at hd'
+    simp only [if_true] at hd'
+    subst hd'
+    rw [set_parent_refused_keeps _ i _ below hr]
+    exact ⟨rfl, fun cur p s hp => abs_path_resolves d' hw cur p s hp⟩
+  | false =>
+    rw [hr] at hd'
+    simp only [Bool.false_eq_true, if_false] at hd'
+    obtain ⟨he, ht, _⟩ := set_parent_accepted_moves _ i _ below _ hkx hr
+    subst hd'
+    rw [he]
+    refine ⟨kids_append d.secs x, ?_⟩
+    have hw' : Doc.wf ⟨d.secs ++ [x]⟩ = true := by
+      simp only [Doc.wf, wfForest, Bool.and_eq_true] at hw ⊢
+      refine ⟨⟨wfList_append_one _ _ hw.1.1 hxw, ?_⟩, ?_⟩
+      · simp only [List.map_append, List.map_cons, List.map_nil, List.all_append, Bool.and_eq_true]
+        exact ⟨hw.1.2, by simp [hxn]⟩
+      · simp only [List.map_append, List.map_cons, List.map_nil]
+        have := nameTaken_false _ _ ht
+        rw [kids_names] at this
+        exact distinct_append_one _ _ hw.2 this
+    exact fun cur p s hp => abs_path_resolves _ hw' cur p s hp
+
+/-- The pre-check has to refuse what the child list refuses (the change seeded in round 6): with
+    `Sectionable.contains` (name AND type) as the pre-check, a Section asked into a holder that has a
+    Section of the same name and ANOTHER type is taken out of its old child list, names the new holder
+    as its parent, and is then refused by the child list: the call raises and the Section is in no
+    list. The setter as it is refuses before anything is touched; for a namesake of the same type the
+    two agree. -/
+theorem contains_precheck_counterexample :
+    let x : Kid := ⟨['p'], ['e']⟩
+    let old : List Kid := [x, ⟨['q'], ['e']⟩]
+    let new : List Kid := [⟨['p'], ['a']⟩]
+    setParentContains old 0 new false = ⟨true, [⟨['q'], ['e']⟩], new, .new⟩ ∧
+    ¬ (setParentContains old 0 new false).consistent old 0 new x ∧
+    setParent old 0 new false = ⟨true, old, new, .old⟩ ∧
+    setParentContains old 0 [⟨['p'], ['e']⟩] false = setParent old 0 [⟨['p'], ['e']⟩] false := by
+  refine ⟨by decide, ?_, by decide, by decide⟩
+  intro h
+  rcases h with ⟨h1, _, _⟩ | ⟨_, _, h3⟩
+  · revert h1; decide
+  · revert h3; decide
+
+/-- the hypotheses are satisfiable, and the setter does move / refuse -/
+example : setParent [⟨['a'], ['t']⟩, ⟨['b'], ['t']⟩] 1 [⟨['a'], ['u']⟩] false
+      = ⟨false, [⟨['a'], ['t']⟩], [⟨['a'], ['u']⟩, ⟨['b'], ['t']⟩], .new⟩ ∧
+    (setParent [⟨['a'], ['t']⟩, ⟨['b'], ['t']⟩] 0 [⟨['a'], ['u']⟩] false).raised = true ∧
+    (setParent [⟨['a'], ['t']⟩] 0 [] true).raised = true := by decide
 
 /-! ## 6. The hypotheses are satisfiable (non-vacuity) -/
 
